@@ -231,3 +231,15 @@ def choose(x, lo, hi):
 
 def psum_monotone(seq, strict=False):
     return None
+
+
+# ---- symbolic-only vocabulary (abstract heap): importable natively, never executed natively
+def declare_field(name, kind, cls=None):
+    return None
+
+
+def _symbolic_only(*a, **k):
+    raise RuntimeError("symbolic-only specification construct (lemma must be marked native=False)")
+
+
+heap_obj = field_of = seq_len = seq_at = snapshot = in_snapshot = ufb = _symbolic_only
